@@ -26,10 +26,10 @@ def ob_api(ob):
     first = ob.params.get('first')
     seen = {}
 
+    pool = ob.params.get('pool') or tuple(range(len(ELEMENTS)))
+
     def run(es, ss, ci):
-        idx = [choose(e, range(len(ELEMENTS))) for e in es]
-        if first is not None:
-            idx[0] = first
+        idx = [first if (i == 0 and first is not None) else choose(e, pool) for i, e in enumerate(es)]
         seps = [choose(s, SEPS) for s in ss]
         cfg = choose(ci, CONFIGS)
         v = verdict(idx, seps, cfg)
@@ -59,9 +59,7 @@ def ob_api(ob):
         out = []
         for v in vs[:3]:
             a = v['args']
-            idx = [cl(a[f'e{i}'], len(ELEMENTS)) for i in range(n)]
-            if first is not None:
-                idx[0] = first
+            idx = [first if (i == 0 and first is not None) else pool[cl(a[f'e{i}'], len(pool))] for i in range(n)]
             seps = [SEPS[cl(a[f's{i}'], len(SEPS))] for i in range(n - 1)]
             cfg = CONFIGS[cl(a['ci'], len(CONFIGS))]
             vv = verdict(idx, seps, cfg)
@@ -135,5 +133,5 @@ def obligations(tier):
     else:
         for i in range(len(ELEMENTS)):
             obs.append(Ob(f'api_3_{i}', 'S', ob_api, f'three-element descriptions starting with {ELEMENTS[i][0]!r}', functions=S, weight=9, timeout=7000,
-                          params={'n': 3, 'first': i, 'cap': 6500}))
+                          params={'n': 3, 'first': i, 'cap': 6500, 'pool': (0, 1, 2, 4, 6, 8, 9, 13)}))
     return obs
